@@ -2,7 +2,7 @@
 //! table as part of their query. If they can't, the query will not be routed.
 
 use async_trait::async_trait;
-use sqlparser::ast::{visit_relations, Statement};
+use sqlparser::ast::{visit_relations, CopySource, ObjectName, Statement};
 
 use crate::{
     errors::Error,
@@ -32,24 +32,47 @@ impl<'a> Plugin for TableAccess<'a> {
 
         let mut found = None;
 
-        visit_relations(ast, |relation| {
-            // The table is the last part of a possibly qualified name. Like PostgreSQL,
-            // fold an unquoted identifier to lower case and take a quoted one as written.
+        // The table is the last part of a possibly qualified name. Like PostgreSQL,
+        // fold an unquoted identifier to lower case and take a quoted one as written.
+        let listed = |relation: &ObjectName| -> Option<String> {
             let table_name = match relation.0.last() {
                 Some(ident) => match ident.quote_style {
                     Some(_) => ident.value.clone(),
                     None => ident.value.to_lowercase(),
                 },
-                None => return ControlFlow::<()>::Continue(()),
+                None => return None,
             };
 
             if self.tables.contains(&table_name) {
+                Some(table_name)
+            } else {
+                None
+            }
+        };
+
+        visit_relations(ast, |relation| match listed(relation) {
+            Some(table_name) => {
                 found = Some(table_name);
                 ControlFlow::<()>::Break(())
-            } else {
-                ControlFlow::<()>::Continue(())
             }
+            None => ControlFlow::<()>::Continue(()),
         });
+
+        // The table of `COPY table TO/FROM ...` is not reported as a relation by the visitor.
+        if found.is_none() {
+            for statement in ast {
+                if let Statement::Copy {
+                    source: CopySource::Table { table_name, .. },
+                    ..
+                } = statement
+                {
+                    if let Some(table_name) = listed(table_name) {
+                        found = Some(table_name);
+                        break;
+                    }
+                }
+            }
+        }
 
         if let Some(found) = found {
             debug!("Blocking access to table \"{}\"", found);
